@@ -56,6 +56,24 @@ def main():
                 break
     j = fam_graph.judge(wd, graphs, bad)
     expect(sum(("paths" in x["failed"]) for x in j) > 0, "a visit path that is not an execution is rejected (paths)", fails)
+    # 2a'. the textual report: a flipped classification / a wrong count in the Done line must be rejected
+    items = [dict(g=g, gi=i + 1, cfgs=[gg.base_cfg("dfs", 1, report=True)]) for i, g in enumerate(graphs)]
+    runs_r = fam_graph.execute(wd, items, par=4)
+    j = fam_graph.judge(wd, graphs, runs_r)
+    with_disc = [i for i, r_ in enumerate(runs_r) if r_["done"]["report"].get("present") and r_["done"]["report"]["items"]]
+    expect(all("report" not in x["failed"] for x in j) and len(with_disc) > 0, "unmodified reports are accepted (%d list discoveries)" % len(with_disc), fails)
+    bad = copy.deepcopy(runs_r)
+    for i in with_disc:
+        it = bad[i]["done"]["report"]["items"][0]
+        it["classification"] = "example" if it["classification"] == "counterexample" else "counterexample"
+    j = fam_graph.judge(wd, graphs, bad)
+    expect(all("report" in j[i]["failed"] for i in with_disc), "a flipped discovery classification in the report is rejected", fails)
+    bad = copy.deepcopy(runs_r)
+    for r_ in bad:
+        if r_["done"]["report"].get("present"):
+            r_["done"]["report"]["done_lines"][0]["unique"] += 1
+    j = fam_graph.judge(wd, graphs, bad)
+    expect(all("report" in x["failed"] for x, r_ in zip(j, bad) if r_["done"]["report"].get("present")), "a wrong count in the report's Done line is rejected", fails)
     # 2b. actor conformance: corrupt an envelope count / drop an edge
     systems = ga.variants("flows", ga.hand_written()[5][1], rng)[:6]
     sp2, recs = fam_actor.record(wd, systems, real_counts=False, tag="st")
